@@ -209,7 +209,9 @@ def tx_cases(draw, max_in=4, max_out=4, allow_junk=True, allow_coinbase=True, bi
         if coinbase:
             prev, n = '00' * 32, 0xffffffff
             ss = draw(st.binary(min_size=2, max_size=100))
-            wit = [bytes(32)] if segwit and draw(st.booleans()) else []
+            wit = [draw(st.one_of(st.just(bytes(32)), st.binary(min_size=32, max_size=32),
+                                  st.tuples(st.integers(0x20, 0x4e), st.binary(min_size=31, max_size=31)).map(
+                                      lambda t_: bytes([t_[0]]) + t_[1])))] if segwit and draw(st.booleans()) else []
         else:
             prev = draw(st.binary(min_size=32, max_size=32).filter(lambda b: b != bytes(32))).hex()
             n = draw(st.one_of(st.sampled_from([0, 1, 0xfffe, 0xffff, 0xfffffffe]), st.integers(0, 0xffffffff)))
@@ -271,9 +273,14 @@ def block_cases(draw, max_tx=6):
     n_tx = draw(st.integers(1, max_tx))
     txs = []
     segwit_cb = draw(st.booleans())
+    # the witness reserved value of a segwit coinbase is free (BIP141): zeros, hash-like bytes, and bytes that read as
+    # the start of a push running past the end of the item
+    reserved = draw(st.one_of(st.just(bytes(32)), st.binary(min_size=32, max_size=32),
+                              st.tuples(st.integers(0x20, 0x4e), st.binary(min_size=31, max_size=31)).map(
+                                  lambda t: bytes([t[0]]) + t[1])))
     cb = {'version': draw(st.sampled_from([1, 2])), 'locktime': 0,
           'vin': [{'prev': '00' * 32, 'n': 0xffffffff, 'ss': draw(st.binary(min_size=4, max_size=60)).hex(),
-                   'seq': 0xffffffff, 'wit': ['00' * 32] if segwit_cb else []}],
+                   'seq': 0xffffffff, 'wit': [reserved.hex()] if segwit_cb else []}],
           'vout': [{'v': draw(values()), 'spk': draw(standard_spk()).hex()}] +
                   ([{'v': 0, 'spk': (b'\x6a\x24\xaa\x21\xa9\xed' + draw(st.binary(min_size=32, max_size=32))).hex()}]
                    if segwit_cb else [])}
